@@ -7,6 +7,7 @@ import (
 	"pgregory.net/rapid"
 
 	"verif/model"
+	"verif/rnd"
 )
 
 // DocOpts tunes the valid-document generator.
@@ -38,7 +39,7 @@ type docGen struct {
 	budget  int
 	nAlias  int
 	// Stats for non-triviality
-	DupKeys, MultiSpread, VarDirs, BothDirs int
+	DupKeys, MultiSpread, VarDirs, BothDirs, Reentries int
 }
 
 // Doc draws a document that satisfies every validation rule by construction, together with
@@ -113,12 +114,12 @@ func Doc(t *T, s *model.Schema, o DocOpts) (*model.Doc, string, *DocStats) {
 	} else if ops[0].Name != "" && chance(t, 50, "giveName") {
 		opName = ops[0].Name
 	}
-	st := &DocStats{DupKeys: g.DupKeys, MultiSpread: g.MultiSpread, VarDirs: g.VarDirs, BothDirs: g.BothDirs, Fragments: len(g.frags), Vars: len(g.vars), Ops: nOps}
+	st := &DocStats{DupKeys: g.DupKeys, MultiSpread: g.MultiSpread, VarDirs: g.VarDirs, BothDirs: g.BothDirs, Fragments: len(g.frags), Vars: len(g.vars), Ops: nOps, Reentries: g.Reentries}
 	return g.doc, opName, st
 }
 
 type DocStats struct {
-	DupKeys, MultiSpread, VarDirs, BothDirs, Fragments, Vars, Ops int
+	DupKeys, MultiSpread, VarDirs, BothDirs, Fragments, Vars, Ops, Reentries int
 }
 
 func (g *docGen) usedVars(sel []*model.Sel, dirs []*model.Dir, used, seen map[string]bool) {
@@ -245,6 +246,51 @@ func (g *docGen) selSet(parent string, depth int, fragIdx int) []*model.Sel {
 		default:
 			if x := g.anyField(parent, td, depth); x != nil {
 				out = append(out, x)
+			}
+		}
+	}
+	// re-entry: next to a spread of fragment F, select one of F's own composite fields directly,
+	// with F spread again below it (the response key then has an occurrence outside F whose
+	// sub-selection leads back into F, and one inside F)
+	if !g.o.NoFrags && depth < g.o.MaxDepth && td.Kind != model.KUnion && chance(t, 12, "reenter") {
+	search:
+		for idx, x := range out {
+			if x.K != "spread" {
+				continue
+			}
+			f := g.fragByName(x.Name)
+			if f == nil || g.open[f.Name] {
+				continue
+			}
+			ftd := g.s.Type(f.TypeCond)
+			if ftd == nil {
+				continue
+			}
+			for _, y := range f.Sel {
+				if y.K != "field" || len(y.Sel) == 0 {
+					continue
+				}
+				fd, pd := ftd.Field(y.Name), td.Field(y.Name)
+				if fd == nil || pd == nil || fd.Type.String() != pd.Type.String() || len(fd.Args) != len(pd.Args) {
+					continue
+				}
+				sameArgs := true
+				for i := range fd.Args {
+					sameArgs = sameArgs && fd.Args[i].Name == pd.Args[i].Name && fd.Args[i].Type.String() == pd.Args[i].Type.String()
+				}
+				fits := false
+				for _, c := range overlapping(g.s, fd.Type.Name) {
+					fits = fits || c == f.TypeCond
+				}
+				if !sameArgs || !fits {
+					continue
+				}
+				nf := &model.Sel{K: "field", Name: y.Name, Alias: y.Alias, Args: cloneArgs(y.Args), Sel: []*model.Sel{{K: "spread", Name: f.Name}}}
+				out = append(out[:idx], append([]*model.Sel{nf}, out[idx:]...)...)
+				g.DupKeys++
+				g.MultiSpread++
+				g.Reentries++
+				break search
 			}
 		}
 	}
@@ -513,6 +559,9 @@ func (g *docGen) literalNN(ty model.TypeRef, depth int, vars bool) *model.Val {
 		}
 		return model.Float(rapid.SampledFrom([]float64{0.5, -1.25, 3.0, 1e10, 2.5e-3, 6.02e23}).Draw(t, "litFloat"))
 	case "String":
+		if chance(t, 30, "composedLitStr") {
+			return model.Str(rnd.ComposeString(t))
+		}
 		return model.Str(rapid.SampledFrom([]string{"", "s", "hello world", "q\"uote", "ünï", "a,b]c", "line\nbreak", "sV0,"}).Draw(t, "litStr"))
 	case "Boolean":
 		return model.Bool(chance(t, 50, "litBool"))
